@@ -11,7 +11,7 @@ use std::time::Instant;
 
 /// Root of the verification tree (the directory of the `check` script, which exports it).
 pub fn verif_dir() -> String {
-    std::env::var("PVH_verif_dir()").unwrap_or_else(|_| "/verif".to_string())
+    std::env::var("PVH_VERIF_DIR").unwrap_or_else(|_| "/verif".to_string())
 }
 pub const WORKERS: usize = 16;
 pub const WORKER_STACK: usize = 512 << 20;
